@@ -50,6 +50,19 @@ theorem rel_bind_joinable_readER (hR : Preorder' R) (hinc : ∀ c, R c { c with 
     · simp only [hj]; exact hR.refl c
   | panic s => exact hR.refl c
 
+theorem rel_bind_joinable_readER_at (hR : Preorder' R) (hinc : ∀ c, R c { c with subgraphComplete := false })
+    {g : Ctx → ER α} {f : Option α → M β} (c : Ctx) (hnone : Rel R (f none))
+    (hf : ∀ a, g c = .ok a → R c ((f (some a)) c).2) : R c ((joinable (readER g) >>= f) c).2 := by
+  show R c ((M.bind (joinable (readER g)) f) c).2
+  simp only [M.bind, joinable, readER]
+  cases hg : g c with
+  | ok a => exact hf a hg
+  | error e =>
+    by_cases hj : e.isJoinable = true
+    · simp only [hj, if_true]; exact hR.trans (hinc c) (hnone _)
+    · simp only [hj]; exact hR.refl c
+  | panic s => exact hR.refl c
+
 /-- a bind whose continuation needs a state-independent fact about the value -/
 theorem rel_bind_val (hR : Preorder' R) {m : M α} {f : α → M β} (Q : α → Prop) (hm : Rel R m)
     (hq : ∀ c a, (m c).1 = .ok a → Q a) (hf : ∀ a, Q a → Rel R (f a)) : Rel R (m >>= f) := by
@@ -200,7 +213,22 @@ theorem failOperand_ok {c : Ctx} (hi : EnvInv env c) {arg : FailArg} {v : JVal} 
     subst h1 h2
     show PairOK env c.cid (Tetraplet.literal c.initPeerId) Provenance.literal
     trivial
-  | canonWL name l => simp [failOperand, unmodelled] at h   -- outside the modelled fragment today
+  | canonWL name l =>
+    simp only [failOperand, bind, Res.bind] at h
+    cases hr : resolveValue c (.canonWL name l) with
+    | ok x =>
+      obtain ⟨v', ts, p'⟩ := x
+      simp only [hr] at h
+      obtain ⟨t0, rfl, hok⟩ := resolve_canonWL_shape hi hr
+      cases he : errObjER (checkErrorObject v') with
+      | ok u =>
+        simp only [he, pure] at h
+        injection h with h; injection h with _ h; injection h with h1 h2
+        subst h1 h2; exact hok
+      | error e => simp [he] at h
+      | panic s => simp [he] at h
+    | error e => simp [hr] at h
+    | panic s => simp [hr] at h
   | lastError =>
     simp only [failOperand, bind, Res.bind] at h
     cases he : errObjER (checkErrorObject c.lastError.error.error) with
@@ -315,10 +343,27 @@ theorem applyToArg_ok {c : Ctx} (hi : EnvInv env c) {arg : Value} {va : ValueAgg
       exact hP.nonService _ _ (by intro k hk; simp [ValueAggregate.new] at hk)
     | error e => simp [hg] at h
     | panic s => simp [hg] at h
-  -- outside the modelled fragment today
-  | canonWL n l => simp [applyToArg, unmodelled] at h
-  | canonMap n => simp [applyToArg, unmodelled] at h
-  | canonMapWL n l => simp [applyToArg, unmodelled] at h
+  | canonWL n l =>
+    simp only [applyToArg, bind, Res.bind] at h
+    cases hr : resolveValue c (.canonWL n l) with
+    | ok x => obtain ⟨v, ts, p⟩ := x; simp only [hr] at h; exact hnew hr (resolve_canonWL_shape hi hr) h
+    | error e => simp [hr] at h
+    | panic s => simp [hr] at h
+  | canonMap n =>
+    simp only [applyToArg, bind, Res.bind] at h
+    cases hg : c.scalars.getCanonMap n with
+    | ok cs =>
+      simp only [hg, pure] at h
+      injection h with h; subst h
+      exact hP.nonService _ _ (by intro k hk; simp [ValueAggregate.new] at hk)
+    | error e => simp [hg] at h
+    | panic s => simp [hg] at h
+  | canonMapWL n l =>
+    simp only [applyToArg, bind, Res.bind] at h
+    cases hr : resolveValue c (.canonMapWL n l) with
+    | ok x => obtain ⟨v, ts, p⟩ := x; simp only [hr] at h; exact hnew hr (resolve_canonMapWL_shape hi hr) h
+    | error e => simp [hr] at h
+    | panic s => simp [hr] at h
 
 theorem step_withScalars {c c' : Ctx} {g : Scalars → ER Scalars} (h : withScalars c g = .ok c')
     (hg : ∀ sc, EnvInv env c → g c.scalars = .ok sc → ScalarsOK (PairOK env c.cid) sc) : Step env c c' := by
@@ -442,8 +487,40 @@ theorem createScalarIterable_ok {c : Ctx} (hi : EnvInv env c) {iterable : Value}
     | error e => simp [hg] at h
     | panic s => simp [hg] at h
   | canonWL n l => simp [createScalarIterable, unmodelled] at h
-  | canonMap n => simp [createScalarIterable, unmodelled] at h
-  | canonMapWL n l => simp [createScalarIterable, unmodelled] at h
+  | canonMap n =>
+    simp only [createScalarIterable, bind, Res.bind] at h
+    cases hg : c.scalars.getCanonMap n with
+    | ok cm =>
+      simp only [hg] at h
+      split at h
+      · simp [pure] at h
+      · simp only [pure] at h
+        injection h with h; injection h with h; subst h
+        intro x hx
+        exact getCanonMap_ok hi.scalars hg x (mem_lastPairPerKey hx)
+    | error e => simp [hg] at h
+    | panic s => simp [hg] at h
+  | canonMapWL n l =>
+    simp only [createScalarIterable, bind, Res.bind] at h
+    cases hg : c.scalars.getCanonMap n with
+    | ok cm =>
+      simp only [hg] at h
+      split at h
+      · simp [pure] at h
+      · cases hs : lensOfLambda l (fun lam => Lens.selectByLambdaFromCanonMap c.scalars cm.canonStreamMap.toLens lam) with
+        | ok sel =>
+          simp only [hs] at h
+          split at h
+          · split at h
+            · cases h
+            · simp only [pure] at h
+              injection h with h; injection h with h; subst h
+              simp only [IterOK, PairOK]
+          · simp [catchable] at h
+        | error e => simp [hs] at h
+        | panic s => simp [hs] at h
+    | error e => simp [hg] at h
+    | panic s => simp [hg] at h
 
 theorem step_foldEnter {c c' : Ctx} (iterator : String) (fs : FoldState) (hf : EnvInv env c → IterOK (PairOK env c.cid) fs.iterable)
     (h : foldEnter iterator fs c = .ok c') : Step env c c' := by
